@@ -80,12 +80,21 @@ bool is_double(int k)
 
 // attribute set id: base-4 digit per key, 0 = absent, 1..3 = value
 typedef std::map<std::string, std::string> AttrMap;
-// knob hash_twins: the third value of k0, k1 and k3 is replaced by a value of ANOTHER type
-// whose std::hash equals that of an existing value of the same key (bool true ~ int64 1,
+// knob hash_twins: some values are replaced by a value of ANOTHER type whose std::hash
+// equals that of an existing value of the same key (bool true ~ int64 1 ~ uint64 1,
 // one-element string array ~ the string, int32 array ~ int64 array with the same elements):
 // the attribute sets differ as key-to-value maps but their hashes collide, so only the
 // equality comparison keeps their series apart.
 int g_hash_twins = 0;
+// [key][value digit] -> canonical text of the replacement (nullptr: the ordinary value).
+// k0: int64 1 / uint64 1 / bool true and k2: false / true / uint32 1 collide three- and two-way;
+// the others also bring in the remaining value types (uint8, double and bool arrays).
+const char *const kTwinCanon[kNKeys][4] = {
+    {nullptr, nullptr, "u64:1", "b:1"},
+    {nullptr, nullptr, "vu8:[118,49,]", "vs:[v1,]"},
+    {nullptr, nullptr, nullptr, "u32:1"},
+    {nullptr, nullptr, nullptr, "vi32:[2,3,]"},
+    {nullptr, nullptr, "vd:[1.500000,2.500000,]", "vb:[1,0,]"}};
 AttrMap attrs_of(int64_t id, int mask)
 {
   AttrMap m;
@@ -94,9 +103,9 @@ AttrMap attrs_of(int64_t id, int mask)
     int v = (int)((id >> (2 * k)) & 3);
     if (!v || !((mask >> k) & 1))
       continue;
-    if (g_hash_twins && v == 3 && (k == 0 || k == 1 || k == 3))
+    if (g_hash_twins && kTwinCanon[k][v])
     {
-      m[kKeys[k]] = k == 0 ? "b:1" : k == 1 ? "vs:[v1,]" : "vi32:[2,3,]";
+      m[kKeys[k]] = kTwinCanon[k][v];
       continue;
     }
     // k0: int64; k1: strings of equal length; k2: bool; k3: double and two int64 arrays that
@@ -130,6 +139,27 @@ struct CanonOwned
   std::string operator()(uint64_t v) const { return "u64:" + std::to_string(v); }
   std::string operator()(double v) const { return "d:" + std::to_string(v); }
   std::string operator()(const std::string &v) const { return "s:" + v; }
+  std::string operator()(const std::vector<uint8_t> &v) const
+  {
+    std::string o = "vu8:[";
+    for (auto e : v)
+      o += std::to_string((int)e) + ",";
+    return o + "]";
+  }
+  std::string operator()(const std::vector<double> &v) const
+  {
+    std::string o = "vd:[";
+    for (auto e : v)
+      o += std::to_string(e) + ",";
+    return o + "]";
+  }
+  std::string operator()(const std::vector<bool> &v) const
+  {
+    std::string o = "vb:[";
+    for (bool e : v)
+      o += std::string(e ? "1" : "0") + ",";
+    return o + "]";
+  }
   std::string operator()(const std::vector<int32_t> &v) const
   {
     std::string o = "vi32:[";
@@ -453,15 +483,32 @@ struct CallAttrs final : common::KeyValueIterable
       std::swap(keys[i - 1], keys[(order_seed >> 33) % i]);
     }
     auto value = [&](int k, int v) -> common::AttributeValue {
-      if (g_hash_twins && v == 3 && (k == 0 || k == 1 || k == 3))
+      if (g_hash_twins && kTwinCanon[k][v])
       {
         static const nostd::string_view one[1] = {"v1"};
         static const int32_t arr32[2]          = {2, 3};
-        if (k == 0)
-          return common::AttributeValue(true);
-        if (k == 1)
-          return common::AttributeValue(nostd::span<const nostd::string_view>(one, 1));
-        return common::AttributeValue(nostd::span<const int32_t>(arr32, 2));
+        static const uint8_t bytes[2]          = {118, 49};
+        static const double dbl[2]             = {1.5, 2.5};
+        static const bool bools[2]             = {true, false};
+        switch (k * 4 + v)
+        {
+          case 0 * 4 + 2:
+            return common::AttributeValue((uint64_t)1);
+          case 0 * 4 + 3:
+            return common::AttributeValue(true);
+          case 1 * 4 + 2:
+            return common::AttributeValue(nostd::span<const uint8_t>(bytes, 2));
+          case 1 * 4 + 3:
+            return common::AttributeValue(nostd::span<const nostd::string_view>(one, 1));
+          case 2 * 4 + 3:
+            return common::AttributeValue((uint32_t)1);
+          case 3 * 4 + 3:
+            return common::AttributeValue(nostd::span<const int32_t>(arr32, 2));
+          case 4 * 4 + 2:
+            return common::AttributeValue(nostd::span<const double>(dbl, 2));
+          default:
+            return common::AttributeValue(nostd::span<const bool>(bools, 2));
+        }
       }
       if (k == 0)
         return common::AttributeValue((int64_t)v);
@@ -1408,8 +1455,8 @@ void generate(const std::string &prop, Rng &wl, Rng &fl, Case &c)
       if (twins && wl.chance(0.7))
       {
         // k0 = int64 1 / bool true, k1 = "v1" / ["v1"], k3 = int64[2,3] / int32[2,3]
-        static const int64_t kTwinIds[6] = {1, 3, 1 << 2, 3 << 2, 2 << 6, 3 << 6};
-        aid = kTwinIds[wl.below(6)] | (wl.chance(0.2) ? (1 << 4) : 0);
+        static const int64_t kTwinIds[9] = {1, 2, 3, 1 << 2, 3 << 2, 2 << 4, 3 << 4, 2 << 6, 3 << 6};
+        aid = kTwinIds[wl.below(9)] | (wl.chance(0.2) ? (int64_t)wl.range(1, 3) << 8 : 0);
       }
       p.ops.push_back({OP_ADD, i, aid, next_digit[i]++, (int64_t)(wl.next() >> 2)});
     }
